@@ -292,7 +292,17 @@ class ExcAnalysis:
         if k == "unpack":
             self.sites_examined += 1
             v = unsnap(e.d["value"])
-            if self._unpack_safe(ex, v, e.d["n"]):
+            safe = self._unpack_safe(ex, v, e.d["n"])
+            if not safe:
+                try:
+                    from .facts import Facts
+
+                    F = Facts(ex)
+                    F.add_event_facts(e)
+                    safe = F.entails_rel(("rel", "Eq", mk("len", v), C(e.d["n"])), e)
+                except RecursionError:
+                    safe = False
+            if safe:
                 self.sites_discharged += 1
             else:
                 esc("ValueError", "unpack %s into %d names" % (show(v, 3), e.d["n"]))
@@ -563,7 +573,7 @@ class ExcAnalysis:
             ta = type_of(ex, A[0])
             if not (ta <= frozenset(["int", "bool"]) and "?" not in ta):
                 self.sites_examined += 1
-                if self._int_safe(A[0]):
+                if self._int_safe(A[0]) or self._hexlify_nonempty(ex, A[0], e):
                     self.sites_discharged += 1
                 else:
                     esc("ValueError", "int(%s)" % ", ".join(show(a, 3) for a in A))
@@ -589,6 +599,23 @@ class ExcAnalysis:
         elif name in ("os.urandom",):
             pass
         return out
+
+    def _hexlify_nonempty(self, ex, a: Term, e: Event) -> bool:
+        """int(binascii.hexlify(X), 16) cannot fail when X is provably non-empty"""
+        bc = builtin_call(a)
+        if not (bc and bc[0] in ("binascii.hexlify", "binascii.b2a_hex") and bc[1]):
+            return False
+        x = unsnap(bc[1][0])
+        if self._len_lb(x, e) >= 1:
+            return True
+        try:
+            from .facts import Facts
+
+            F = Facts(ex)
+            F.add_event_facts(e)
+            return F.entails(mk("bin", "Sub", mk("len", x), C(1)))
+        except RecursionError:
+            return False
 
     def _int_safe(self, a: Term) -> bool:
         # int(m.group(i)) where the group is \d{N}: licensed by the regex structure (C12)
